@@ -88,6 +88,8 @@ slow = st.tuples(st.just('slow'), k, st.sampled_from([3.0, 11.0, 12.0, 25.0])).m
 straggle = st.tuples(st.just('straggle'), k,
                      st.sampled_from([2.0, 11.0, 12.0, 25.0]),
                      st.booleans()).map(list)
+parkrecycle = st.tuples(st.just('parkrecycle'), k,
+                        st.sampled_from([3.0, 12.0, 25.0, 40.0])).map(list)
 lastgasp = st.tuples(st.just('lastgasp'), k, status_any).map(list)
 feed = st.one_of(st.tuples(st.just('feed')).map(list),
                  st.just(['feed', None, False, True]))
@@ -111,6 +113,8 @@ shrink = st.tuples(st.just('shrink'), st.just(1)).map(list)
 close = st.just(['close'])
 closerace = st.sampled_from([['closerace'], ['closerace', 'create']])
 join = st.just(['join'])
+drainlimit = st.tuples(st.just('drainlimit'), k,
+                       st.sampled_from([1.5, 3.0, 6.0, 11.0, 25.0])).map(list)
 
 
 def config(procs=(1, 4), threads=None, maxtasks=False, limits=False,
